@@ -29,6 +29,7 @@ func init() { hx.Register("C07", Run) }
 const (
 	classSelfdestruct = "evm:selfdestruct-to-self-burns-ong"
 	classRefundHeight = "evm:refund-height-mints-ong"
+	classRepeat       = "evm:selfdestruct-repeat-mints"
 )
 
 func mulU(a uint64, b *big.Int) *big.Int { return new(big.Int).Mul(new(big.Int).SetUint64(a), b) }
@@ -140,6 +141,7 @@ func (w *world) judge(sc *Scenario, ti *txInfo, ob *observation) {
 		return
 	}
 	burned := new(big.Int).Sub(preRun.total(), postRun.total()) // > 0: the interpreter destroyed ONG
+	selfBurned := new(big.Int)                                  // the part explained by SELFDESTRUCT-to-self
 
 	// ---- interpreter hypotheses, on this invocation ----
 	if ran {
@@ -147,17 +149,37 @@ func (w *world) judge(sc *Scenario, ti *txInfo, ob *observation) {
 		if ob.tr.gasLeft > ob.tr.gasIn {
 			fail("evm:interpreter-returns-more-gas", "H_gas: left-over gas exceeds the gas supplied", ob.tr.gasLeft, ob.tr.gasIn)
 		}
-		if burned.Sign() != 0 {
-			if ob.tr.sdSelf && burned.Sign() > 0 {
-				c.Count("run:selfdestruct-self-burn")
-				if ti.chain != constants.EIP155_CHAINID_MAINNET {
-					fail(classSelfdestruct, "H1: the interpreter invocation changed the ONG sum (SELFDESTRUCT with beneficiary = self)",
-						"sum after run "+postRun.total().String(), "sum before run "+preRun.total().String())
+		// every executed SELFDESTRUCT must leave the contract with a zero ONG balance
+		for _, n := range ob.tr.sdLog {
+			c.Count("run:selfdestruct")
+			if n.repeat {
+				c.Count("run:selfdestruct-repeat")
+				if n.sdMoved.Sign() > 0 {
+					c.Count("run:selfdestruct-repeat-with-balance")
 				}
-			} else {
-				fail("evm:interpreter-changes-ong-sum", "H1: the interpreter invocation changed the ONG sum",
-					postRun.total().String(), preRun.total().String())
 			}
+			if n.sdAfter.Sign() != 0 {
+				cl, what := "evm:selfdestruct-leaves-balance", "first"
+				if n.repeat {
+					cl, what = classRepeat, "repeated"
+				}
+				fail(cl, "a "+what+" SELFDESTRUCT credited the beneficiary but left the contract's ONG balance in place",
+					fmt.Sprintf("contract %x balance after %s (moved %s to %x)", n.from[:], n.sdAfter, n.sdMoved, n.to[:]), "0")
+			}
+		}
+		// the only explained change of the sum: SELFDESTRUCTs with beneficiary = executing contract in
+		// frames that were not reverted (the effect tree gives the exact amount)
+		selfBurned = selfBurn(ob.tr.top, true)
+		if selfBurned.Sign() > 0 {
+			c.Count("run:selfdestruct-self-burn")
+			if ti.chain != constants.EIP155_CHAINID_MAINNET {
+				fail(classSelfdestruct, "H1: the interpreter invocation changed the ONG sum (SELFDESTRUCT with beneficiary = self)",
+					"sum after run "+postRun.total().String(), "sum before run "+preRun.total().String())
+			}
+		}
+		if burned.Cmp(selfBurned) != 0 {
+			fail("evm:interpreter-changes-ong-sum", "H1: the interpreter invocation changed the ONG sum by something other than SELFDESTRUCT-to-self",
+				"sum after run "+postRun.total().String(), "sum before run "+preRun.total().String()+" minus "+selfBurned.String()+" burned by SELFDESTRUCT-to-self")
 		}
 		if postRun.nonce(from) != preRun.nonce(from)+1 {
 			fail("evm:interpreter-sender-nonce", "H_nonce: sender nonce after the invocation is not the pre-transaction nonce + 1",
@@ -208,12 +230,14 @@ func (w *world) judge(sc *Scenario, ti *txInfo, ob *observation) {
 		fail("evm:ong-accounting", "the change of the ONG sum is not (compensation - dust - burned by the interpreter)", delta.String(), expect.String())
 	}
 	if ti.chain != constants.EIP155_CHAINID_MAINNET && delta.Sign() != 0 {
-		switch {
-		case mint && burned.Sign() == 0:
+		// explained parts: the compensation payment (known class) and the SELFDESTRUCT-to-self burn
+		// (known class, reported above with its positive evidence); anything left is unexplained
+		resid := new(big.Int).Add(delta, selfBurned)
+		if mint {
+			resid.Sub(resid, sevm.RefundValue)
 			fail(classRefundHeight, "ONG sum changed on a non-mainnet chain id (handleGasFee at RefundHeight)", delta.String(), "0")
-		case burned.Sign() > 0 && ob.tr.sdSelf && !mint:
-			// already reported under classSelfdestruct
-		default:
+		}
+		if resid.Sign() != 0 {
 			fail("evm:ong-total-changed", "ONG sum changed on a non-mainnet chain id", delta.String(), "0")
 		}
 	}
@@ -379,9 +403,13 @@ func (w *world) emitTx(sc *Scenario, ti *txInfo, ob *observation, obs string, po
 			always[a] = true
 		}
 		top := ob.tr.top
-		w.c.Case(fmt.Sprintf("(CTree %d %s %d %s %d %s %s %s %s %s)", ti.height, w.acctList(ob.spy.preRun, all), w.id(ti.from),
+		var sdl []string
+		for _, n := range ob.tr.sdLog {
+			sdl = append(sdl, fmt.Sprintf("(%d, %s, %s)", w.id(n.from), n.sdMoved.String(), n.sdAfter.String()))
+		}
+		w.c.Case(fmt.Sprintf("(CTree %d %s %d %s %d %s %s %s %s %s %s)", ti.height, w.acctList(ob.spy.preRun, all), w.id(ti.from),
 			hx.CoqBool(ob.tr.create), w.id(top.to), top.value.String(), hx.CoqBool(top.ok), w.coqEffects(top.body),
-			w.acctListDiff(postRun, ob.spy.preRun, all, always), hx.CoqList(su)), sc)
+			w.acctListDiff(postRun, ob.spy.preRun, all, always), hx.CoqList(su), hx.CoqList(sdl)), sc)
 		w.c.Count("case:effect-tree")
 		if effSize(top) > 1 {
 			w.c.Count("case:effect-tree-nested")
@@ -460,6 +488,20 @@ func (w *world) probes(libSeed int64) []*Scenario {
 				{From: 0, PriceGwei: price, GasLimit: 200000, Value: "17", To: "l20"},
 				{From: 0, PriceGwei: price, GasLimit: 200000, Value: "17", To: "l20"}, // same salt again: address collision
 				{From: 0, PriceGwei: price, GasLimit: 200000, Value: "23", To: "l21"}}},
+		// the same victim (beneficiary = another account) self-destructs twice / three times in one
+		// transaction and receives value in between; also through a reverted frame and after CREATE
+		{LibSeed: libSeed, ChainID: constants.EIP155_CHAINID_POLARIS, Height: 100, Note: "repeated SELFDESTRUCT (0,v) (v,0) (v,w) (0,v,w)",
+			Pre: []PreOp{{"l24", "5000"}, {"l25", "5000"}, {"l4", "31"}},
+			Txs: []TxSpec{{From: 0, PriceGwei: price, GasLimit: 300000, Value: "500", To: "l22"},
+				{From: 0, PriceGwei: price, GasLimit: 300000, Value: "500", To: "l23"},
+				{From: 0, PriceGwei: price, GasLimit: 300000, Value: "500", To: "l24"},
+				{From: 0, PriceGwei: price, GasLimit: 300000, Value: "500", To: "l25"}}},
+		{LibSeed: libSeed, ChainID: constants.EIP155_CHAINID_POLARIS, Height: 100, Note: "repeated SELFDESTRUCT around a reverted frame; after CREATE; beneficiary a contract",
+			Txs: []TxSpec{{From: 0, PriceGwei: price, GasLimit: 400000, Value: "600", To: "l27"},
+				{From: 0, PriceGwei: price, GasLimit: 400000, Value: "600", To: "l28"},
+				{From: 0, PriceGwei: price, GasLimit: 400000, Value: "600", To: "l29"},
+				{From: 0, PriceGwei: price, GasLimit: 400000, Value: "600", To: "l30"},
+				{From: 0, PriceGwei: price, GasLimit: 400000, Value: "600", To: "l31"}}},
 		// storage refund: set then clear
 		{LibSeed: libSeed, ChainID: constants.EIP155_CHAINID_POLARIS, Height: 100, Note: "sstore refund",
 			Txs: []TxSpec{{From: 0, PriceGwei: price, GasLimit: 100000, Value: "0", To: "l10", Data: "01"},
